@@ -36,6 +36,10 @@ package main
 // END TO END: after racing /authorize requests every code / callback id handed out is redeemed / continued;
 // two or more TOKEN RESPONSES out of one request_uri are named
 //   race:<kind>:several-token-responses           (never known)
+// MIXED VERDICTS (suite_c15mixed.go, Model/RaceMixed.v): c15Scenario.Verdicts gives every racing CIBA poll its own answer of the
+// embedder's validation function (handed over when the gate releases that poll); one more approved poll follows the race;
+// two token responses over race + follow-up are named
+//   race:auth_req_id:mixed-verdicts:several-token-responses   (never known)
 
 import (
 	"context"
@@ -75,6 +79,10 @@ type c15Scenario struct {
 	// quick tier: run this scenario only with this rotation setting (nil: with both) - the authorization endpoint
 	// never looks at the rotation flag, the thorough tier runs both all the same
 	QuickRot *bool
+	// MIXED VERDICTS (suite_c15mixed.go, Model/RaceMixed.v): racing CIBA polls, poll i being answered Verdicts[i] by the
+	// embedder's ValidateBackAuthFunc; after the race one more poll, approved, presents the auth_req_id (nil: every
+	// request carries the verdict of the race op)
+	Verdicts []string
 }
 
 // the client of the request_uri x response-type scenarios (RaceUri.ru_client)
@@ -329,6 +337,20 @@ type c15Run struct {
 	Rev    bool
 	E2E    []bool
 	E2EObs []Obs
+	// mixed verdicts: per racing poll, then the follow-up poll: answered with tokens
+	Verdicts  []string
+	Mixed     []bool
+	FollowObs Obs
+}
+
+func (r *c15Run) mixedTokens() int {
+	n := 0
+	for _, b := range r.Mixed {
+		if b {
+			n++
+		}
+	}
+	return n
 }
 
 // the storage reports an error for a Delete of something absent (suite_c15strict.go)
@@ -383,7 +405,7 @@ func (w *World) c15Request(o Op, req int) *http.Request {
 
 // c15Execute: fresh world, prefix, k racing requests under the schedule.
 func c15Execute(sc c15Scenario, flavour string, k int, sched []int, rev bool) (run c15Run) {
-	run = c15Run{Kind: sc.Kind, Flavour: flavour, Rotation: sc.Rotation, K: k, Sched: sched, Rev: rev}
+	run = c15Run{Kind: sc.Kind, Flavour: flavour, Rotation: sc.Rotation, K: k, Sched: sched, Rev: rev, Verdicts: sc.Verdicts}
 	spec := sc.spec(flavour)
 	run.Spec = spec
 	w, err := NewWorld(spec)
@@ -487,6 +509,11 @@ func c15Execute(sc c15Scenario, flavour string, k int, sched []int, rev bool) (r
 	release := func(i int) bool {
 		p := parked[i]
 		parked[i] = nil
+		if sc.Verdicts != nil {
+			// exactly one request runs between two gates: the embedder's validation function (world.go reads w.ba)
+			// answers this request with ITS verdict (ordered with the request's goroutine by the close of p.rel)
+			w.ba = sc.Verdicts[i]
+		}
 		run.Logs[i] = append(run.Logs[i], p.kind)
 		run.Trace = append(run.Trace, c15Step{i, p.kind})
 		close(p.rel)
@@ -522,6 +549,14 @@ func c15Execute(sc c15Scenario, flavour string, k int, sched []int, rev bool) (r
 		run.Obs = append(run.Obs, ob)
 		run.OK[i] = c15Success(ob)
 		run.Status[i] = ob.Status
+	}
+	// MIXED VERDICTS: the follow-up poll, approved, served alone after the race (RaceMixed.mx_follow_up)
+	if sc.Verdicts != nil {
+		w.step = len(sc.Prefix) + k
+		fu := run.RaceOp
+		fu.BA = "BaApprove"
+		run.FollowObs = w.Exec(fu)
+		run.Mixed = append(append([]bool{}, run.OK...), run.FollowObs.Kind == "Tokens")
 	}
 	// END TO END: what the artifacts handed out by racing /authorize requests are worth afterwards
 	// (RaceStrict.e2e_outcomes): every callback id is continued with a policy that succeeds, every code is
@@ -732,6 +767,7 @@ func c15Replay(sc c15Scenario, run *c15Run) map[string]any {
 		"schedule": run.Sched, "succeeded": run.OK, "status": run.Status, "storage_calls_per_request": logs, "storage_calls_in_order": trace,
 		"lookups_before_first_consume_at_model_positions": run.Window, "lookups_before_first_consume_observed": run.ObsWindow,
 		"follow_ups_reversed": run.Rev, "ended_in_token_response": run.E2E, "token_responses_end_to_end": run.e2eTokens(), "follow_up_responses": e2eRaw,
+		"verdicts": run.Verdicts, "tokens_per_racing_poll_then_follow_up": run.Mixed, "token_responses_race_and_follow_up": run.mixedTokens(), "follow_up_poll_response": truncate(run.FollowObs.Raw, 120),
 		"prefix": cList(sc.Prefix, Op.coq), "racing_request": run.RaceOp.coq(), "responses": raw,
 		"Spec": run.Spec, "Ops": append(append([]Op{}, sc.Prefix...), run.RaceOp)}
 }
@@ -990,6 +1026,7 @@ func init() {
 				Requests int    `json:"requests"`
 				Schedule []int  `json:"schedule"`
 				Rev      bool   `json:"follow_ups_reversed"`
+				Verdicts []string `json:"verdicts"`
 			} `json:"replay"`
 			Race *struct {
 				Kind     string `json:"kind"`
@@ -998,6 +1035,7 @@ func init() {
 				Requests int    `json:"requests"`
 				Schedule []int  `json:"schedule"`
 				Rev      bool   `json:"follow_ups_reversed"`
+				Verdicts []string `json:"verdicts"`
 			} `json:"Race"`
 			Kind     string `json:"kind"`
 			Rotation bool   `json:"rotation"`
@@ -1005,20 +1043,24 @@ func init() {
 			Requests int    `json:"requests"`
 			Schedule []int  `json:"schedule"`
 			Rev      bool   `json:"follow_ups_reversed"`
+			Verdicts []string `json:"verdicts"`
 		}
 		if err := json.Unmarshal(b, &rp); err != nil {
 			fmt.Fprintln(os.Stderr, err)
 			return 2
 		}
-		kind, rot, fl, k, sched, rev := rp.Kind, rp.Rotation, rp.Flavour, rp.Requests, rp.Schedule, rp.Rev
+		kind, rot, fl, k, sched, rev, verdicts := rp.Kind, rp.Rotation, rp.Flavour, rp.Requests, rp.Schedule, rp.Rev, rp.Verdicts
 		if rp.Replay != nil {
-			kind, rot, fl, k, sched, rev = rp.Replay.Kind, rp.Replay.Rotation, rp.Replay.Flavour, rp.Replay.Requests, rp.Replay.Schedule, rp.Replay.Rev
+			kind, rot, fl, k, sched, rev, verdicts = rp.Replay.Kind, rp.Replay.Rotation, rp.Replay.Flavour, rp.Replay.Requests, rp.Replay.Schedule, rp.Replay.Rev, rp.Replay.Verdicts
 		} else if rp.Race != nil {
-			kind, rot, fl, k, sched, rev = rp.Race.Kind, rp.Race.Rotation, rp.Race.Flavour, rp.Race.Requests, rp.Race.Schedule, rp.Race.Rev
+			kind, rot, fl, k, sched, rev, verdicts = rp.Race.Kind, rp.Race.Rotation, rp.Race.Flavour, rp.Race.Requests, rp.Race.Schedule, rp.Race.Rev, rp.Race.Verdicts
 		}
 		for _, sc := range append(c15Scenarios(rot), c15UriScenarios(rot)...) {
 			if sc.Kind != kind {
 				continue
+			}
+			if len(verdicts) == k && k > 0 {
+				sc.Verdicts = verdicts
 			}
 			r := c15Execute(sc, fl, k, sched, rev)
 			r.Window = c15WindowCount(sched, k, sc.L, sc.C)
